@@ -321,7 +321,9 @@ def run(case):
                     got = d.get(b'A$')
                     exp = (pre + b(text))
                     run.probe('line_inputs')
-                    if got != exp:
+                    # the line comes from the screen editor, which drops blanks at the end of the line (as GW-BASIC's does):
+                    # trailing blanks are not judged
+                    if got.rstrip(b' ') != exp.rstrip(b' '):
                         run.violate('C37', 'lineinput-mismatch', 'LINE INPUT returned %r, typed %r' % (got, exp))
                         return
                 elif k == 'resume':
